@@ -35,6 +35,7 @@ type Delivery struct {
 	Dup     int    `json:"dup,omitempty"`
 	Wait    bool   `json:"wait,omitempty"`
 	Key     int    `json:"key,omitempty"`
+	Limit   int    `json:"limit,omitempty"` // restart: Load(limit) instead of Load(-1) when > 0 (the older part arrives by replication later)
 }
 
 type PlanC01 struct {
@@ -86,14 +87,18 @@ func genC01(rt *rapid.T) CaseC01 {
 		var p PlanC01
 		n := rapid.IntRange(0, 7).Draw(rt, "nsteps")
 		for i := 0; i < n; i++ {
-			d := Delivery{Route: rapid.SampledFrom([]string{"sync", "sync", "topic", "topic", "direct", "direct", "restart", "snapshot", "write"}).Draw(rt, "route")}
+			d := Delivery{Route: rapid.SampledFrom([]string{"sync", "sync", "topic", "topic", "direct", "direct", "restart", "snapshot", "write", "loadmore"}).Draw(rt, "route")}
 			switch d.Route {
-			case "sync", "topic", "direct":
+			case "sync", "topic", "direct", "loadmore":
 				d.Entries = rapid.SliceOfN(rapid.IntRange(0, 200), 1, 4).Draw(rt, "entries")
 				d.Dup = rapid.IntRange(0, 2).Draw(rt, "dup")
 				d.Wait = rapid.Bool().Draw(rt, "wait")
 			case "write":
 				d.Key = rapid.IntRange(0, 3).Draw(rt, "key")
+			case "restart":
+				if rapid.IntRange(0, 2).Draw(rt, "limited") == 0 {
+					d.Limit = rapid.IntRange(1, 4).Draw(rt, "limit")
+				}
 			}
 			p.Steps = append(p.Steps, d)
 		}
@@ -211,6 +216,7 @@ func execC01(c CaseC01) *Outcome {
 	}
 	authorSeq := append([]string{}, tr.seq...)
 
+	limited := false
 	routesUsed := map[string]bool{}
 	plansDiffer := false
 	for oi, plan := range c.Plans {
@@ -256,7 +262,7 @@ func execC01(c CaseC01) *Outcome {
 		for si, d := range plan.Steps {
 			s := cl.Stores[pi]
 			switch d.Route {
-			case "sync", "topic", "direct":
+			case "sync", "topic", "direct", "loadmore":
 				var heads []ipfslog.Entry
 				for _, ei := range d.Entries {
 					heads = append(heads, entryOf[authorSeq[ei%len(authorSeq)]])
@@ -266,7 +272,14 @@ func execC01(c CaseC01) *Outcome {
 					return fail("harness: %v", err)
 				}
 				for rep := 0; rep <= d.Dup; rep++ {
-					switch d.Route {
+					route := d.Route
+					if route == "loadmore" && plan.Gated {
+						route = "sync" // LoadMoreFrom returns when the fetch is over: not with every fetch parked
+					}
+					switch route {
+					case "loadmore":
+						hs, _ := cloneHeads(heads)
+						world.LoadMoreFrom(ctx, s, hs)
 					case "sync":
 						hs, _ := cloneHeads(heads)
 						if err := s.Sync(ctx, hs); err != nil {
@@ -340,8 +353,26 @@ func execC01(c CaseC01) *Outcome {
 					o.Inconclusive = true
 					return o
 				}
-				if err := cl.Reopen(ctx, pi); err != nil {
-					return fail("observer %d step %d: restart+Load failed: %v", oi, si, err)
+				amount := -1
+				if d.Limit > 0 {
+					amount = d.Limit
+					limited = true
+					// the replica first holds everything the authors have (so that the bounded load leaves a part out)
+					for a := 0; a < A; a++ {
+						if cl.Stores[a].OpLog().Len() == 0 {
+							continue
+						}
+						if err := syncFrom(cl, pi, a); err != nil {
+							if err == world.ErrInconclusive {
+								o.Inconclusive = true
+								return o
+							}
+							return fail("observer %d step %d: %v", oi, si, err)
+						}
+					}
+				}
+				if err := cl.ReopenLimit(ctx, pi, amount); err != nil {
+					return fail("observer %d step %d: restart+Load(%d) failed: %v", oi, si, amount, err)
 				}
 				if plan.Gated {
 					p.SetGate(true)
@@ -415,6 +446,37 @@ func execC01(c CaseC01) *Outcome {
 				return fail("final phase: Sync of valid heads returned %v", err)
 			}
 		}
+	}
+	if limited {
+		// a replica that loaded only the newest part of its log holds the heads already: the older part
+		// reaches it when older entries are announced (a lagging peer does that), so announce everything
+		// (once the heads announced above have been merged, so that this part arrives on its own)
+		if !cl.W.WaitQuiescent(cl.Open(), nil, claimTimeout) {
+			o.Inconclusive = true
+			return o
+		}
+		var every []ipfslog.Entry
+		for _, h := range tr.seq {
+			if e, ok := entryOf[h]; ok {
+				every = append(every, e)
+			}
+		}
+		for _, dst := range all {
+			for i := 0; i < len(every); i += 6 {
+				j := i + 6
+				if j > len(every) {
+					j = len(every)
+				}
+				hs, err := cloneHeads(every[i:j])
+				if err != nil {
+					return fail("harness: %v", err)
+				}
+				if err := cl.Stores[dst].Sync(ctx, hs); err != nil {
+					return fail("final phase: Sync of valid entries returned %v", err)
+				}
+			}
+		}
+		o.Labels = append(o.Labels, "limited-load-then-older-part-by-replication")
 	}
 	// two rounds are needed for entries that reached a source late; loop until stable
 	complete := func() bool {
